@@ -2,6 +2,7 @@
 
 LAYER_DEFAULTS = {
     'tracer': {'quick': {'n': 60, 'size': 40, 'shards': 2}, 'thorough': {'n': 400, 'size': 120, 'shards': 16}},
+    'frame': {'quick': {'n': 150, 'size': 10, 'shards': 2}, 'thorough': {'n': 3000, 'size': 10, 'shards': 16}},
     'cancun': {'quick': {'n': 150, 'size': 20, 'shards': 2}, 'thorough': {'n': 3000, 'size': 20, 'shards': 16}},
     'precompile': {'quick': {'n': 150, 'size': 20, 'shards': 2}, 'thorough': {'n': 3000, 'size': 20, 'shards': 16}},
     'journal': {'quick': {'n': 60, 'size': 20, 'shards': 2}, 'thorough': {'n': 400, 'size': 100, 'shards': 16}},
@@ -30,7 +31,25 @@ TB_M6 = ['vm/eips.go opMcopy/opTload/opTstore, vm/memory.go Copy, vm/memory_tabl
          'configuration and comparing memory, MSIZE, step cost, loaded values and call flags',
          'EIP-5656 / EIP-1153 as written in Props/C15.lean (memmoveSpec, mcopyNewLen, mcopyCost) and in Driver/Memory.lean (specMemmove)']
 
+TB_M5 = ['vm/evm.go Call/CallCode/DelegateCall/StaticCall/create are modelled by hand as a machine over interpreter events '
+         '(Artela/Model/Frame.lean); the inherited interpreter is NOT modelled: the harness EVMLogger turns the real run into the event stream '
+         '(enter with the environment\'s answers, effect, journal, halt with contract.Gas), the model predicts call tree, debug callbacks, '
+         'join-point invocations, interpreter start gas, surviving effects, balance journal and journal attribution',
+         'mock Aspects seeded into aspect-core\'s runtime pool (no WASM); errors are compared as Go compares them (the revert sentinel by identity)',
+         'the StateDB is go-ethereum\'s state.StateDB; in the model it is its journal of effects (Snapshot = length, Revert = truncate)']
+
+def frame_prop(mods, extra_runs=(), partial=None):
+    d = {'modules': mods, 'runs': [{'layer': 'frame'}] + [{'layer': l} for l in extra_runs],
+         'trusted_base': TB_M1 + TB_M5, 'assumptions': ['StateDB revision contract (RevertToSnapshot restores all journaled state)', 'one Aspect bound per contract in the generated cases']}
+    if partial:
+        d['partial'] = partial
+    return d
+
 PROPS = {
+    'C04': frame_prop(['Artela.Props.C04']),
+    'C05': frame_prop(['Artela.Props.C05']),
+    'C06': frame_prop(['Artela.Props.C06']),
+    'C08': frame_prop(['Artela.Props.C08'], ['tracer']),
     'C09': {
         'modules': ['Artela.Props.C09'],
         'runs': [{'layer': 'journal'}],
@@ -48,14 +67,14 @@ PROPS = {
     },
     'C10': {
         'modules': ['Artela.Props.C10'],
-        'runs': [{'layer': 'tracer'}, {'layer': 'journal'}],
+        'runs': [{'layer': 'tracer'}, {'layer': 'journal'}, {'layer': 'frame'}],
         'trusted_base': TB_M1 + TB_M2,
         'assumptions': ['the opcodes pass scope.Contract.Address() (journal layer, single frame); multi-frame attribution (DELEGATECALL/CALLCODE/CREATE) is exercised by the frame layer when present'],
         'partial': 'tracer part proved (index = cursor, change local to one node, list law = collapsed history); frame-level attribution by correspondence',
     },
     'C13': {
         'modules': ['Artela.Props.C13'],
-        'runs': [{'layer': 'tracer'}],
+        'runs': [{'layer': 'tracer'}, {'layer': 'frame'}],
         'trusted_base': TB_M1 + ['the four balances of a transfer are read by the harness from the real StateDB before and after a real Transfer and handed to the model'],
         'assumptions': ['Call/create invoke TransferWithRecord exactly once per frame reaching the transfer (frame layer)'],
         'partial': 'tracer part proved (order, index, list law, root-only); exactly-the-transfers at frame level by correspondence',
@@ -88,7 +107,7 @@ PROPS = {
     },
     'C03': {
         'modules': ['Artela.Props.C03', 'Artela.Props.C14', 'Artela.Props.C15'],
-        'runs': [{'layer': 'journal'}, {'layer': 'precompile'}, {'layer': 'cancun'}],
+        'runs': [{'layer': 'journal'}, {'layer': 'precompile'}, {'layer': 'cancun'}, {'layer': 'frame'}],
         'trusted_base': TB_M1 + TB_M2 + TB_M3 + TB_M6,
         'assumptions': ['inherited instructions are panic-free on an initialised host (identity-checked against go-ethereum v1.12.0, not modelled)',
                         'memory length <= 2^47 (memory expansion gas caps it at 0x1FFFFFFFE0 words)'],
@@ -101,8 +120,8 @@ PROPS = {
         'assumptions': ['NewEVM allocates a fresh tracer per EVM (generated fact) and no package-level tracer state exists'],
     },
     'C07': {
-        'modules': ['Artela.Props.C07'],
-        'runs': [{'layer': 'tracer'}],
+        'modules': ['Artela.Props.C07', 'Artela.Props.C07Frame'],
+        'runs': [{'layer': 'tracer'}, {'layer': 'frame'}],
         'trusted_base': TB_M1,
         'assumptions': ['the frame layer performs no call-tree operation other than SaveCall on entry and the deferred ExitCall'],
     },
